@@ -34,6 +34,29 @@
 (*    the removals are ordinary remove_* events; iter_end carries the names *)
 (*    the loop body was given: all of the listed ones, whatever the manager *)
 (*    did to its bookkeeping in between.                                   *)
+(*                                                                         *)
+(* Round 4 additions:                                                      *)
+(*  * e.xcls = "empty": the owned destination / filter ID is the empty      *)
+(*    string (a legal ID: printable text without ':').  The requirement does *)
+(*    not mention it: owned like any other ID.                              *)
+(*  * argument SHAPES: e.shape \in {"single","list","default"}.             *)
+(*    add_subscriptions / remove_destinations / remove_subscriptions take a *)
+(*    path or a LIST of paths (add_subscriptions also None = "all owned     *)
+(*    destinations").  e.dnames (and e.fnames for remove_subscriptions) is  *)
+(*    the argument as a sequence; the call is the sequence of the single    *)
+(*    calls, stopping at the first one that fails (SeqCall): what the       *)
+(*    earlier items did stays done, `owned` applies to every item.          *)
+(*  * cross-manager subscriptions: a manager may subscribe its destination  *)
+(*    to another manager's owned filter (and vice versa).  Then             *)
+(*    remove_server / remove_all_servers of the other manager CANNOT delete *)
+(*    its referenced filter / destination (Blocked): the only admissible    *)
+(*    outcome is CIM_ERR_FAILED, the server stays registered, whatever      *)
+(*    owned instances are still in the server (the observation decides      *)
+(*    which: PartialSrv) are still owned AND STILL LISTED, and a later      *)
+(*    remove_server (after the other manager removed its subscription)      *)
+(*    deletes exactly those.                                                *)
+(*  * o.err: the get_owned_* calls of a registered manager that raised; a   *)
+(*    registered server's lists are retrievable (OwnedLists.Retrievable).   *)
 (***************************************************************************)
 EXTENDS Naturals, Sequences, FiniteSets, TLC
 
@@ -51,7 +74,9 @@ FN(id, x) == "pywbemfilter:" \o id \o ":" \o x
 Names(S) == {x.name : x \in S}
 ByName(S, n) == CHOOSE x \in S : x.name = n
 Subs(S) == {[f |-> x.f, d |-> x.d] : x \in S}
-Referenced(sv, n) == \E x \in sv.s : x.f = n \/ x.d = n
+(* a filter and a destination may have the same Name: per kind              *)
+RefFilt(sv, n) == \E x \in sv.s : x.f = n
+RefDest(sv, n) == \E x \in sv.s : x.d = n
 Id(s, m) == s.mid[m]
 Registered(s, e) == <<e.m, e.sv>> \in s.reg
 
@@ -94,44 +119,76 @@ AddFilt(s, e) ==
   ELSE IF n \in Names(sv.f) THEN <<{<<"CIMError", ALREADY_EXISTS>>}, sv>>
   ELSE <<{<<"ok", 0>>}, [sv EXCEPT !.f = @ \cup {new}]>>
 
-AddSub(s, e) ==
-  LET sv == s.srv[e.sv]
-      id == Id(s, e.m)
-      fo == e.fname \in Names(sv.f) /\ ByName(sv.f, e.fname).creator = id
-      do == e.dname \in Names(sv.d) /\ ByName(sv.d, e.dname).creator = id
-      ex == {x \in sv.s : x.f = e.fname /\ x.d = e.dname}
-      new == [f |-> e.fname, d |-> e.dname,
-              creator |-> IF e.owned THEN id ELSE ""] IN
-  IF ~e.owned /\ (fo \/ do) THEN <<{<<"ValueError", 0>>}, sv>>
+(* one subscription of manager ID id on the server record sv               *)
+AddSub1(sv, id, fname, dname, owned) ==
+  LET fo == fname \in Names(sv.f) /\ ByName(sv.f, fname).creator = id
+      do == dname \in Names(sv.d) /\ ByName(sv.d, dname).creator = id
+      ex == {x \in sv.s : x.f = fname /\ x.d = dname}
+      new == [f |-> fname, d |-> dname,
+              creator |-> IF owned THEN id ELSE ""] IN
+  IF ~owned /\ (fo \/ do) THEN <<{<<"ValueError", 0>>}, sv>>
   ELSE IF ex # {}
-  THEN IF e.owned /\ \E x \in ex : x.creator = id
+  THEN IF owned /\ \E x \in ex : x.creator = id
        THEN <<{<<"existing", 0>>, <<"ok", 0>>}, sv>>
        ELSE <<{<<"CIMError", ALREADY_EXISTS>>}, sv>>
   ELSE <<{<<"ok", 0>>}, [sv EXCEPT !.s = @ \cup {new}]>>
 
-RemDest(s, e) ==
-  LET sv == s.srv[e.sv] IN
-  IF e.dname \notin Names(sv.d) THEN <<{<<"CIMError", 0>>}, sv>>
-  ELSE IF Referenced(sv, e.dname) THEN <<{<<"CIMError", FAILED>>}, sv>>
-  ELSE <<{<<"ok", 0>>}, [sv EXCEPT !.d = {x \in @ : x.name # e.dname}]>>
+RemDest1(sv, dname) ==
+  IF dname \notin Names(sv.d) THEN <<{<<"CIMError", 0>>}, sv>>
+  ELSE IF RefDest(sv, dname) THEN <<{<<"CIMError", FAILED>>}, sv>>
+  ELSE <<{<<"ok", 0>>}, [sv EXCEPT !.d = {x \in @ : x.name # dname}]>>
 
 RemFilt(s, e) ==
   LET sv == s.srv[e.sv] IN
   IF e.fname \notin Names(sv.f) THEN <<{<<"CIMError", 0>>}, sv>>
-  ELSE IF Referenced(sv, e.fname) THEN <<{<<"CIMError", FAILED>>}, sv>>
+  ELSE IF RefFilt(sv, e.fname) THEN <<{<<"CIMError", FAILED>>}, sv>>
   ELSE <<{<<"ok", 0>>}, [sv EXCEPT !.f = {x \in @ : x.name # e.fname}]>>
 
-RemSub(s, e) ==
-  LET sv == s.srv[e.sv]
-      ex == {x \in sv.s : x.f = e.fname /\ x.d = e.dname} IN
+RemSub1(sv, fname, dname) ==
+  LET ex == {x \in sv.s : x.f = fname /\ x.d = dname} IN
   IF ex = {} THEN <<{<<"CIMError", 0>>}, sv>>
   ELSE <<{<<"ok", 0>>}, [sv EXCEPT !.s = @ \ ex]>>
+
+(* A call whose path argument is a sequence (shape "list" / "default"; a    *)
+(* single path is the sequence of length 1) = the single calls in order;    *)
+(* the first failing one ends the call with its outcome, the effects of the *)
+(* earlier ones stay.  <<admissible outcomes, server record afterwards>>    *)
+Step(s, e, sv, i) ==
+  CASE e.op = "add_subscription" ->
+         AddSub1(sv, Id(s, e.m), e.fname, e.dnames[i], e.owned)
+    [] e.op = "remove_destination" -> RemDest1(sv, e.dnames[i])
+    [] e.op = "remove_subscription" -> RemSub1(sv, e.fnames[i], e.dnames[i])
+
+StepOk(r) == \E a \in r[1] : a[1] \in {"ok", "existing"}
+
+RECURSIVE SeqCall(_, _, _, _)
+SeqCall(s, e, sv, i) ==
+  IF Len(e.dnames) = 0 THEN <<{<<"ok", 0>>}, sv>>
+  ELSE LET r == Step(s, e, sv, i) IN
+       IF i = Len(e.dnames) \/ ~StepOk(r) THEN r
+       ELSE SeqCall(s, e, r[2], i + 1)
 
 (* remove_server / remove_all_servers / context exit: exactly the owned    *)
 (* instances of this manager ID disappear                                  *)
 WithoutOwned(sv, id) ==
   [d |-> {x \in sv.d : x.creator # id}, f |-> {x \in sv.f : x.creator # id},
    s |-> {x \in sv.s : x.creator # id}]
+
+(* ... unless an owned filter / destination is referenced by a subscription *)
+(* that is not owned by this ID (another manager's, or a permanent one made *)
+(* by another manager): it cannot be removed, the call fails               *)
+Blocked(sv, id) ==
+  \E x \in sv.s : x.creator # id /\
+     (\/ x.f \in Names(sv.f) /\ ByName(sv.f, x.f).creator = id
+      \/ x.d \in Names(sv.d) /\ ByName(sv.d, x.d).creator = id)
+
+(* after a failed clean-up: the owned instances that are still in the      *)
+(* server (c = its observed content) are still owned; nothing else changed  *)
+PartialSrv(sv, id, c) ==
+  [d |-> {x \in sv.d : x.creator # id \/ x.name \in Rng(c.d)},
+   f |-> {x \in sv.f : x.creator # id \/ x.name \in Rng(c.f)},
+   s |-> {x \in sv.s : x.creator # id \/ (x.f \o "|" \o x.d) \in Rng(c.s)}]
+ContentOf(e, sv) == CHOOSE c \in Rng(e.content) : c.sv = sv
 
 Foreign(s, e) ==
   LET sv == s.srv[e.sv] IN
@@ -149,52 +206,74 @@ OwnedNames(sv, id, k) ==
     [] k = "f" -> {x.name : x \in {y \in sv.f : y.creator = id}}
     [] k = "s" -> {x.f \o "|" \o x.d : x \in {y \in sv.s : y.creator = id}}
 
-Effect(s, e) ==   \* <<admissible outcomes, new state>>
+SeqEffect(s, e) ==
+  LET r == SeqCall(s, e, s.srv[e.sv], 1)
+      s2 == [s EXCEPT !.srv[e.sv] = r[2]] IN
+  <<r[1], s2, s2>>
+
+RemoveServer(s, e) ==
+  LET id == Id(s, e.m)
+      sv == s.srv[e.sv] IN
+  <<IF Blocked(sv, id) THEN {<<"CIMError", FAILED>>} ELSE {<<"ok", 0>>},
+    [s EXCEPT !.srv[e.sv] = WithoutOwned(@, id),
+              !.reg = @ \ {<<e.m, e.sv>>}],
+    \* failed: still registered, what is left of the owned instances is owned
+    [s EXCEPT !.srv[e.sv] = PartialSrv(@, id, ContentOf(e, e.sv))]>>
+
+(* e.regd: the servers the manager still has registered after the call     *)
+RemoveAll(s, e) ==
+  LET id == Id(s, e.m)
+      mine == {sv \in Servers : <<e.m, sv>> \in s.reg} IN
+  <<IF \E sv \in mine : Blocked(s.srv[sv], id)
+    THEN {<<"CIMError", FAILED>>} ELSE {<<"ok", 0>>},
+    [s EXCEPT !.srv = [sv \in Servers |->
+                         IF sv \in mine THEN WithoutOwned(s.srv[sv], id)
+                         ELSE s.srv[sv]],
+              !.reg = {r \in @ : r[1] # e.m}],
+    \* failed: the servers no longer registered are cleaned completely, the
+    \* others keep what is observed to be left
+    [s EXCEPT !.srv = [sv \in Servers |->
+                         IF sv \notin mine THEN s.srv[sv]
+                         ELSE IF sv \in Rng(e.regd)
+                         THEN PartialSrv(s.srv[sv], id, ContentOf(e, sv))
+                         ELSE WithoutOwned(s.srv[sv], id)],
+              !.reg = {r \in @ : r[1] # e.m \/ r[2] \in Rng(e.regd)}]>>
+
+Effect(s, e) ==   \* <<admissible outcomes, state if succeeded, state if failed>>
   CASE e.op = "new_manager" ->
          <<{<<"ok", 0>>},
            [s EXCEPT !.mid = (e.m :> e.id) @@ @,
                      \* a manager object that is replaced is no longer observed
-                     !.reg = {r \in @ : r[1] # e.m}]>>
+                     !.reg = {r \in @ : r[1] # e.m}], s>>
     [] e.op = "add_server" ->
-         <<{<<"ok", 0>>}, [s EXCEPT !.reg = @ \cup {<<e.m, e.sv>>}]>>
+         <<{<<"ok", 0>>}, [s EXCEPT !.reg = @ \cup {<<e.m, e.sv>>}], s>>
     [] e.op = "add_destination" ->
          <<AddDest(s, e)[1] \cup ColonRefusal(e),
-           [s EXCEPT !.srv[e.sv] = AddDest(s, e)[2]]>>
+           [s EXCEPT !.srv[e.sv] = AddDest(s, e)[2]], s>>
     [] e.op = "add_filter" ->
          <<AddFilt(s, e)[1] \cup ColonRefusal(e),
-           [s EXCEPT !.srv[e.sv] = AddFilt(s, e)[2]]>>
-    [] e.op = "add_subscription" ->
-         <<AddSub(s, e)[1], [s EXCEPT !.srv[e.sv] = AddSub(s, e)[2]]>>
-    [] e.op = "remove_destination" ->
-         <<RemDest(s, e)[1], [s EXCEPT !.srv[e.sv] = RemDest(s, e)[2]]>>
+           [s EXCEPT !.srv[e.sv] = AddFilt(s, e)[2]], s>>
+    [] e.op \in {"add_subscription", "remove_destination",
+                 "remove_subscription"} -> SeqEffect(s, e)
     [] e.op = "remove_filter" ->
-         <<RemFilt(s, e)[1], [s EXCEPT !.srv[e.sv] = RemFilt(s, e)[2]]>>
-    [] e.op = "remove_subscription" ->
-         <<RemSub(s, e)[1], [s EXCEPT !.srv[e.sv] = RemSub(s, e)[2]]>>
-    [] e.op = "remove_server" ->
-         <<{<<"ok", 0>>},
-           [s EXCEPT !.srv[e.sv] = WithoutOwned(@, Id(s, e.m)),
-                     !.reg = @ \ {<<e.m, e.sv>>}]>>
-    [] e.op = "remove_all_servers" ->
-         <<{<<"ok", 0>>},
-           [s EXCEPT !.srv = [sv \in Servers |->
-                                IF <<e.m, sv>> \in s.reg
-                                THEN WithoutOwned(s.srv[sv], Id(s, e.m))
-                                ELSE s.srv[sv]],
-                     !.reg = {r \in @ : r[1] # e.m}]>>
+         <<RemFilt(s, e)[1], [s EXCEPT !.srv[e.sv] = RemFilt(s, e)[2]], s>>
+    [] e.op = "remove_server" -> RemoveServer(s, e)
+    [] e.op = "remove_all_servers" -> RemoveAll(s, e)
     [] e.op = "foreign_create" ->
-         <<{<<"ok", 0>>}, [s EXCEPT !.srv[e.sv] = Foreign(s, e)]>>
-    [] e.op = "client_mutate" -> <<{<<"ok", 0>>}, s>>
+         <<{<<"ok", 0>>}, [s EXCEPT !.srv[e.sv] = Foreign(s, e)], s>>
+    [] e.op = "client_mutate" -> <<{<<"ok", 0>>}, s, s>>
     [] e.op = "iter_begin" ->
          <<{<<"ok", 0>>},
-           [s EXCEPT !.iter = OwnedNames(s.srv[e.sv], Id(s, e.m), e.kind)]>>
-    [] e.op = "iter_end" -> <<{<<"ok", 0>>}, [s EXCEPT !.iter = {}]>>
+           [s EXCEPT !.iter = OwnedNames(s.srv[e.sv], Id(s, e.m), e.kind)], s>>
+    [] e.op = "iter_end" -> <<{<<"ok", 0>>}, [s EXCEPT !.iter = {}], s>>
 
 Succeeded(e) == e.res \in {"ok", "existing"}
 
 Apply(s, e) ==
   LET eff == Effect(s, e) IN
-  IF Succeeded(e) /\ \E a \in eff[1] : a[1] = e.res THEN eff[2] ELSE s
+  IF Succeeded(e)
+  THEN IF \E a \in eff[1] : a[1] = e.res THEN eff[2] ELSE s
+  ELSE eff[3]
 
 (*---------------------------- observation -------------------------------*)
 (* e.content : sequence of [sv, d, f, s] (name sequences; subscriptions as *)
@@ -220,6 +299,7 @@ OwnedFails(s2, e) ==
             Rng(o.f) = {x.name : x \in {y \in sv.f : y.creator = id}})
      \cup F("OwnedLists.Subscriptions",
             Rng(o.s) = {SubName(x) : x \in {y \in sv.s : y.creator = id}})
+     \cup F("OwnedLists.Retrievable", o.err = << >>)
      \cup F("OwnedLists.NoDuplicates",
             Len(o.d) = Cardinality(Rng(o.d)) /\ Len(o.f) = Cardinality(Rng(o.f))
             /\ Len(o.s) = Cardinality(Rng(o.s)))
@@ -234,6 +314,16 @@ Fails(s, e) ==
   \cup (IF e.op = "iter_end"
         THEN F("IterateAndRemove.VisitsEveryListedInstance",
                Rng(e.visited) = s.iter /\ Len(e.visited) = Cardinality(s.iter))
+        ELSE {})
+  \cup (IF e.op = "add_subscription" /\ e.shape = "default"
+        THEN F("AddSubscriptions.DefaultIsTheOwnedDestinations",
+               Rng(e.dnames) = OwnedNames(s.srv[e.sv], Id(s, e.m), "d"))
+        ELSE {})
+  \cup (IF e.op = "remove_all_servers" /\ ~Succeeded(e)
+        THEN F("RemoveAllServers.BlockedServerStaysRegistered",
+               \A sv \in Servers :
+                  <<e.m, sv>> \in s.reg /\ Blocked(s.srv[sv], Id(s, e.m))
+                  => sv \in Rng(e.regd))
         ELSE {})
   \cup F("OwnedLists.EveryRegisteredManagerObserved",
          \A r \in s2.reg : \E o \in Rng(e.owned_lists) : o.m = r[1] /\ o.sv = r[2])
